@@ -82,11 +82,135 @@ func (t *fixedTable) Column(f int) ([]ssa.Value, bool) {
 	for k := int64(0); k < t.N; k++ {
 		v, ok := t.Cells[k][f]
 		if !ok {
-			return nil, false
+			/* The row was stored whole: a struct assembled in a local
+			variable field by field. */
+			whole, isWhole := t.Cells[k][-1]
+			if !isWhole || f < 0 {
+				return nil, false
+			}
+			v, ok = fieldOfAssembled(whole, f)
+			if !ok {
+				return nil, false
+			}
 		}
 		out[k] = v
 	}
 	return out, true
+}
+
+// fieldOfAssembled: whole is the load of a local struct variable written only
+// field by field; returns what was stored into field f.
+func fieldOfAssembled(whole ssa.Value, f int) (ssa.Value, bool) {
+	ld, ok := whole.(*ssa.UnOp)
+	if !ok || token.MUL != ld.Op {
+		return nil, false
+	}
+	tmp, ok := ld.X.(*ssa.Alloc)
+	if !ok {
+		return nil, false
+	}
+	var out ssa.Value
+	n := 0
+	for _, ref := range *tmp.Referrers() {
+		switch x := ref.(type) {
+		case *ssa.FieldAddr:
+			for _, r2 := range *x.Referrers() {
+				if st, isSt := r2.(*ssa.Store); isSt && st.Addr == ssa.Value(x) && x.Field == f {
+					out = st.Val
+					n++
+				}
+			}
+		case *ssa.Store:
+			if x.Addr == ssa.Value(tmp) {
+				return nil, false
+			}
+		}
+	}
+	return out, 1 == n
+}
+
+// condTable is a run of rows of a table assembled at run time from literals:
+// present always (Cond nil) or from the append which adds it on.
+type condTable struct {
+	T    *fixedTable
+	Cond ssa.Instruction
+	key  ssa.Value
+}
+
+// tablesOf resolves a slice which is a literal, possibly grown by appending
+// further literals on some paths, into its runs of rows, in order.
+func (p *Prog) tablesOf(c ssa.Value, depth int) ([]condTable, bool) {
+	if depth > 4 {
+		return nil, false
+	}
+	c = resolveCell(c)
+	switch x := c.(type) {
+	case *ssa.Phi:
+		var out []condTable
+		have := map[ssa.Value]bool{}
+		var per [][]condTable
+		for _, e := range x.Edges {
+			ts, ok := p.tablesOf(e, depth+1)
+			if !ok {
+				return nil, false
+			}
+			per = append(per, ts)
+		}
+		/* The runs every way in shares come first and are unconditional;
+		the others must have been appended somewhere. */
+		count := map[ssa.Value]int{}
+		for _, ts := range per {
+			for _, t := range ts {
+				count[t.key]++
+			}
+		}
+		for _, ts := range per {
+			for _, t := range ts {
+				if have[t.key] {
+					continue
+				}
+				if count[t.key] != len(per) && nil == t.Cond {
+					return nil, false
+				}
+				have[t.key] = true
+				out = append(out, t)
+			}
+		}
+		return out, true
+	case *ssa.Call:
+		bi, isB := x.Common().Value.(*ssa.Builtin)
+		if !isB || "append" != bi.Name() || 2 != len(x.Common().Args) {
+			return nil, false
+		}
+		base, ok := p.tablesOf(x.Common().Args[0], depth+1)
+		if !ok {
+			return nil, false
+		}
+		more, ok := p.tablesOf(x.Common().Args[1], depth+1)
+		if !ok {
+			return nil, false
+		}
+		for k := range more {
+			if nil == more[k].Cond {
+				more[k].Cond = x
+			}
+		}
+		return append(base, more...), true
+	case *ssa.Const:
+		if x.IsNil() {
+			return nil, true
+		}
+		return nil, false
+	}
+	t := p.fixedTableOf(c)
+	if nil == t {
+		return nil, false
+	}
+	key := c
+	if sl, ok := c.(*ssa.Slice); ok {
+		key = sl.X
+	}
+	return []condTable{{T: t, key: key}}, true
 }
 
 // fixedTableOf resolves a container (as found in cellRead) to its content.
